@@ -11,6 +11,9 @@ Sub-families (the part of the unit name before the first `_` after `sc`):
   scr   the same programs with an additional *reader function* of the top-level binding called from inside the inner
         scope (lexical scoping: the reader sees the top-level binding).  The evaluator resolves free variables
         dynamically (known, recorded) -> engines = (vm, native)
+  scg   a function-level local with the name of a top-level binding (SPECIFICATION 8.1): reads before / after the
+        local's `let`, other functions keep seeing the top-level binding; with a reader called while the local is
+        alive -> engines = (vm, native), same known evaluator behaviour
   scc   closures: a variable captured 1, 2, 3 function levels out, the intermediate functions capturing / not
         capturing something themselves (vm + eval: nested functions do not compile natively)
   scf   a local shadowing a function name (int local, function-typed local), callers elsewhere unaffected
@@ -300,6 +303,8 @@ def _derive(to, ti, x):
         return ("len", x)
     if to == "bool" and ti == "int":
         return ("len", ("s", "abc"))            # no conversion from bool: constant
+    if to == "bool" and ti == "string":
+        return ("+", ("s", "b"), ("s", "b"))
     if ti == "bool":
         return ("==", x, x)
     raise AssertionError((to, ti))
@@ -409,6 +414,7 @@ def _matrix(tier, reader):
         # (to, ti, derive, wbefore, wafter)
         var = [("int", "int", False, False, False), ("int", "int", True, True, True), ("string", "string", True, False, False),
                ("int", "string", True, False, True), ("string", "int", False, True, False), ("bool", "bool", True, False, False)]
+        # (the bool variant only for the parameter / let mut outer kinds, the else-branch only in the thorough tier)
         if reader:
             var = [("int", "int", False, False, False), ("string", "int", True, True, True)]
     else:
@@ -421,10 +427,59 @@ def _matrix(tier, reader):
                 omut = outer in ("gmut", "letmut")
                 if tier == "quick" and not omut:
                     wb = wa = False                 # the quick variants differ in their write pattern only where a write exists
+                if tier == "quick" and (inner == "elselet" or (to == "bool" and outer not in ("param", "letmut"))):
+                    continue
                 u = _matrix_unit("%s_%d" % (tag, n), outer, inner, to, ti, d, wb, wa, reader)
                 if u is not None:
                     n += 1
                     yield u
+
+
+# ------------------------------------------------------------------------------------------ top-level binding vs function-level local
+def _global_local_units(tier):
+    """SPECIFICATION 8.1: `let x = 1  fn f() { return x }  fn g() { let x = 2  return (f) }` -> g returns 1.
+    The function-level local lives from its `let` to the end of the function; before it the top-level binding is read.
+    Every unit with a call of the reader / writer of the top-level binding while the local is alive is exactly the shape
+    the evaluator is known to get wrong (it resolves free variables dynamically) -> engines (vm, native)."""
+    n = 0
+    types = [("int", "int"), ("string", "string"), ("int", "string"), ("string", "int"), ("bool", "bool")]
+    if tier != "quick":
+        types += [("bool", "int"), ("int", "bool"), ("string", "bool"), ("bool", "string")]
+    for gmut in (False, True):
+        for lmut in (False, True):
+            for to, ti in types:
+                for derive in (False, True):
+                    for reader in (False, True):
+                        if tier == "quick" and (((to, ti) not in (("int", "int"), ("int", "string")) and (derive != reader))
+                                                or to == "bool" or (gmut and not lmut)):
+                            continue
+                        name = "scg_%d" % n
+                        n += 1
+                        X = name + "_x"
+                        xv = ("v", X)
+                        top = [("let", X, to, gmut, OUT0[to]), ("fn", name + "_rd", [], to, [("ret", xv)])]
+                        if gmut:
+                            top.append(("fn", name + "_wr", [], "int", [("set", X, _bump(to, xv)), ("ret", ("i", 0))]))
+                        b = [("p", xv), ("p", ("call", name + "_rd", []))]
+                        if gmut:
+                            b += [("set", X, _bump(to, xv)), ("p", xv), ("do", ("call", name + "_wr", [])), ("p", xv)]
+                        b += [("let", X, ti, lmut, _derive(to, ti, xv) if derive else IN0[ti]), ("p", xv)]
+                        if lmut:
+                            b += [("set", X, _bump(ti, xv)), ("p", xv)]
+                        if reader:
+                            b += [("p", ("call", name + "_rd", []))]
+                            if gmut:
+                                b += [("do", ("call", name + "_wr", [])), ("p", ("call", name + "_rd", [])), ("p", xv)]
+                        # a second function with no local of that name still sees the top-level binding
+                        top.append(("fn", name + "_other", [], "int", [("p", xv), ("ret", ("i", 8))]))
+                        body = b + [("ret", ("i", 4))]
+                        tail = [("p", ("call", name + "_other", []))]
+                        top.append(("fn", name + "_f", [], "int", body))
+                        yield _unit(name, top, [("p", ("call", name + "_f", []))] + tail + [("ret", ("i", 5))],
+                                    "top-level %s%s %s, function-level local %s%s of the same name%s%s" % (
+                                        "mut " if gmut else "", to, X, "mut " if lmut else "", ti, ", initialised from the top-level one" if derive else "",
+                                        "; reader/writer of the top-level binding called while the local is alive (evaluator: known dynamic resolution)" if reader else ""),
+                                    ("vm", "native") if reader else None)
 
 
 # ------------------------------------------------------------------------------------------ closures
@@ -441,6 +496,8 @@ def _closure_units(tier):
                 for kind in kinds:
                     for t in types:
                         if tier == "quick" and t != "int" and kind != "let" and depth > 1:
+                            continue
+                        if tier == "quick" and depth == 3 and (kind == "letmut" or t != "int") and mids != (True, True):
                             continue
                         name = "scc_%d" % n
                         n += 1
@@ -493,47 +550,62 @@ def _closure_units(tier):
 # ------------------------------------------------------------------------------------------ function names shadowed by locals
 def _fname_units(tier):
     n = 0
-    for where in ("fnlevel", "if", "blk", "while", "for"):
+    for where in ("fnlevel", "if", "blk", "while", "for", "arm"):
         for kind in ("int", "string", "fnvalue", "fnvalue-self"):
             for call_before in (False, True):
-                name = "scf_%d" % n
-                n += 1
-                H, H2 = name + "_h", name + "_k"
-                top = [("fn", H, [], "int", [("p", ("s", "h")), ("ret", ("i", 3))]),
-                       ("fn", H2, [], "int", [("p", ("s", "k")), ("ret", ("i", 4))]),
-                       ("fn", name + "_via", [], "int", [("ret", ("+", ("call", H, []), ("i", 100)))])]
-                inner = []
-                if call_before:
-                    inner.append(("p", ("call", H, [])))
-                if kind == "int":
-                    inner += [("let", H, "int", False, ("i", 50)), ("p", ("v", H)), ("p", ("+", ("v", H), ("i", 1)))]
-                elif kind == "string":
-                    inner += [("let", H, "string", False, ("s", "loc")), ("p", ("v", H)), ("p", ("+", ("v", H), ("s", "!")))]
-                elif kind == "fnvalue":
-                    # a function-typed local named like function h but holding function k: the call goes to k
-                    inner += [("let", H, "fn() -> int", False, ("v", H2)), ("p", ("call", H, []))]
-                else:
-                    # ... holding h itself (the initialiser is resolved before the new binding exists)
-                    inner += [("let", H, "fn() -> int", False, ("v", H)), ("p", ("call", H, []))]
-                inner.append(("p", ("call", name + "_via", [])))          # another function still reaches the function
-                if where == "fnlevel":
-                    st = inner
-                    after = []
-                else:
-                    after = [("p", ("call", H, []))]                         # the function name is visible again
-                    if where == "if":
-                        st = [("if", ("b", True), inner, [])]
-                    elif where == "blk":
-                        st = [("blk", inner)]
-                    elif where == "while":
-                        c = name + "_c"
-                        st = [("let", c, "int", True, ("i", 0)), ("while", ("<", ("v", c), ("i", 2)), inner + [("set", c, ("+", ("v", c), ("i", 1)))])]
+                if tier == "quick" and where != "fnlevel" and not call_before:
+                    continue
+                # `via`: another function that calls the shadowed function while the shadowing local is alive.  For a
+                # function-valued local holding ANOTHER function this is the evaluator's known dynamic resolution of
+                # free names (the callee finds the caller's local) -> that variant is vm + native only.
+                for via in ((False, True) if kind == "fnvalue" else (True,)):
+                    name = "scf_%d" % n
+                    n += 1
+                    H, H2 = name + "_h", name + "_k"
+                    top = [("fn", H, [], "int", [("p", ("s", "h")), ("ret", ("i", 3))]),
+                           ("fn", H2, [], "int", [("p", ("s", "k")), ("ret", ("i", 4))]),
+                           ("fn", name + "_via", [], "int", [("ret", ("+", ("call", H, []), ("i", 100)))])]
+                    inner = []
+                    if call_before:
+                        inner.append(("p", ("call", H, [])))
+                    if kind == "int":
+                        inner += [("let", H, "int", False, ("i", 50)), ("p", ("v", H)), ("p", ("+", ("v", H), ("i", 1)))]
+                    elif kind == "string":
+                        inner += [("let", H, "string", False, ("s", "loc")), ("p", ("v", H)), ("p", ("+", ("v", H), ("s", "!")))]
+                    elif kind == "fnvalue":
+                        # a function-typed local named like function h but holding function k: the call goes to k
+                        inner += [("let", H, "fn() -> int", False, ("v", H2)), ("p", ("call", H, []))]
                     else:
-                        st = [("for", name + "_i", ("i", 0), ("i", 2), inner)]
-                body = st + after + [("ret", ("i", 6))]
-                yield _unit(name, top, body, "function name shadowed by a %s local %s, %s the function first; another function still calls it" % (
-                    kind, {"fnlevel": "at function level", "if": "in an if-branch", "blk": "in a bare (unsafe) block", "while": "in a while body",
-                           "for": "in a for body"}[where], "calling" if call_before else "not calling"))
+                        # ... holding h itself (the initialiser is resolved before the new binding exists)
+                        inner += [("let", H, "fn() -> int", False, ("v", H)), ("p", ("call", H, []))]
+                    if via:
+                        inner.append(("p", ("call", name + "_via", [])))      # another function still reaches the function
+                    if where == "fnlevel":
+                        st = inner
+                        after = []
+                    else:
+                        after = [("p", ("call", H, [])), ("p", ("call", name + "_via", []))]      # the function name is visible again
+                        if where == "if":
+                            st = [("if", ("b", True), inner, [])]
+                        elif where == "blk":
+                            st = [("blk", inner)]
+                        elif where == "while":
+                            c = name + "_c"
+                            st = [("let", c, "int", True, ("i", 0)), ("while", ("<", ("v", c), ("i", 2)), inner + [("set", c, ("+", ("v", c), ("i", 1)))])]
+                        elif where == "for":
+                            st = [("for", name + "_i", ("i", 0), ("i", 2), inner)]
+                        else:
+                            un = name.capitalize() + "u"
+                            top.append(("union", un, [("A", [("v", "int")]), ("B", [("w", "int")])]))
+                            st = [("let", name + "_m", un, False, ("mk", un, "A", [("v", ("i", 1))])),
+                                  ("match", ("v", name + "_m"), [("A", name + "_a", inner), ("B", name + "_b", [("p", ("s", "no"))])])]
+                    body = st + after + [("ret", ("i", 6))]
+                    eng = ("vm", "native") if (kind == "fnvalue" and via) else None
+                    yield _unit(name, top, body, "function name shadowed by a %s local %s, %s the function first; %s" % (
+                        kind, {"fnlevel": "at function level", "if": "in an if-branch", "blk": "in a bare (unsafe) block", "while": "in a while body",
+                               "for": "in a for body", "arm": "in a match arm"}[where], "calling" if call_before else "not calling",
+                        "another function calls it meanwhile" + (" (evaluator: known dynamic resolution of free names)" if eng else "") if via
+                        else "no call through another function meanwhile"), eng)
     # a parameter named like a function
     for kind in ("int", "string", "fnvalue"):
         name = "scf_%d" % n
@@ -559,7 +631,7 @@ def _twofn_units(tier):
         for tb in types:
             for mut_a in (False, True):
                 for mut_b in (False, True):
-                    if tier == "quick" and ta != tb and (mut_a != mut_b):
+                    if tier == "quick" and ((ta != tb and (mut_a != mut_b)) or "bool" in (ta, tb)):
                         continue
                     name = "sct_%d" % n
                     n += 1
@@ -602,7 +674,7 @@ def _sibling_units(tier):
     pairs = [(a, b) for a in blocks for b in blocks]
     for ba, bb in pairs:
         for ta, tb in ((("int", "string"), ("string", "int")) if tier == "quick" else [(x, y) for x in types for y in types if x != y]):
-            if tier == "quick" and (ta, tb) == ("string", "int") and ba != bb:
+            if tier == "quick" and (((ta, tb) == ("string", "int") and ba != bb) or blocks.index(ba) > blocks.index(bb)):
                 continue
             name = "scs_%d" % n
             n += 1
@@ -637,6 +709,8 @@ def _sibling_units(tier):
             yield _unit(name, top, body, "sibling blocks [%s] then [%s] each with its own mutable %s: %s in the first, %s in the second" % (ba, bb, X, ta, tb))
     # the two branches of ONE if / the two arms of ONE match
     for ta, tb in [(x, y) for x in types for y in types if x != y]:
+        if tier == "quick" and (ta, tb) not in (("int", "string"), ("string", "int"), ("int", "bool")):
+            continue
         for taken in (True, False):
             name = "scs_%d" % n
             n += 1
@@ -661,6 +735,6 @@ def _sibling_units(tier):
 
 
 def units(tier):
-    for u in itertools.chain(_matrix(tier, False), _matrix(tier, True), _closure_units(tier), _fname_units(tier),
-                             _twofn_units(tier), _sibling_units(tier)):
+    for u in itertools.chain(_matrix(tier, False), _matrix(tier, True), _global_local_units(tier), _closure_units(tier),
+                             _fname_units(tier), _twofn_units(tier), _sibling_units(tier)):
         yield u
